@@ -397,6 +397,12 @@ func replaceScenario(n int, leaves, joins uint64) *explore.Scenario {
 				conn = newConn(n)
 				a := storage.NewAllocator(conn)
 				first = a.VerifPlacement(1, uint(n))
+				// a member that is announced again - under the same and under another address (restarted on another port) - stays one
+				conn.AddNode(1, world.Addr(1))
+				conn.AddNode(uint64(n), world.Addr(uint64(n))+"0")
+				if leaves == uint64(n) {
+					conn.AddNode(uint64(n-1), world.Addr(uint64(n-1))+"0")
+				}
 				conn.RemoveNode(leaves)
 				conn.AddNode(joins, world.Addr(joins))
 				pl = a.VerifPlacement(2, uint(n))
